@@ -301,13 +301,13 @@ def gen_clock(rng, abort=False):
         out = []
         for _ in range(k):
             r = rng.random()
-            if r < 0.45: out.append(['sched', rng.randrange(nt), rng.choice(DELTAS)])
+            if r < 0.45: out.append(['sched', rng.randrange(nt), rng.choice(DELTAS + ['inf'])])
             elif r < 0.70: out.append(['abs', rng.randrange(nt), str(rng.randint(1, 3))])
             elif r < 0.93: out.append(['tempo', rng.randrange(ncl), rng.choice(TEMPI)])
             else: out.append(['beats', rng.randrange(ncl), rng.choice(['0', '1/2', '1'])])
         return out
     for j in range(nt):
-        steps = [{'acts': acts(rng.choice([0, 0, 0, 1, 1, 2])), 'ret': rng.choice([None, None, 'raise', 'raiseB'] + DELTAS)}
+        steps = [{'acts': acts(rng.choice([0, 0, 0, 1, 1, 2])), 'ret': rng.choice([None, None, 'raise', 'raiseB', 'inf', 'nan', 'nan'] + DELTAS)}
                  for _ in range(rng.randint(1, 3))]
         tasks.append({'clock': home if rng.random() < 0.75 else rng.choice([-1] + list(range(ncl))),
                       'type': rng.choice('RRF'), 'steps': steps})
@@ -497,6 +497,7 @@ def check_users(ctx, c, n, kind='correspondence'):
             if sc['kind'] == 'clock':
                 ac = [a for t in sc['tasks'] for st in t['steps'] for a in st['acts']] + sc['init']
                 if any(a[0] in ('tempo', 'beats') for a in ac): c.count('user:clock-with-retime')
+                if any(st['ret'] in ('inf', 'nan') for t in sc['tasks'] for st in t['steps']): c.count('user:clock-answers-inf-or-nan')
                 ts = [t for _, t in (r.get('log') or [])]
                 if len(set(ts)) < len(ts): c.count('user:clock-with-tied-wakeups')
             if sc['kind'] == 'ppar':
@@ -612,8 +613,8 @@ def gen_rt_batch(rng, clock, past=False, inside=False):
     uid = iter(range(1000))
 
     def nested(depth):
-        return [['n%d' % next(uid), rng.choice([0, 0, 1, 1, 2, 3]), nested(depth - 1) if depth and rng.random() < 0.3 else []]
-                for _ in range(rng.choice([0, 0, 1, 1, 2]))]
+        return [['n%d' % next(uid), rng.choice([0, 0, 1, 1, 2, 3]), nested(depth - 1) if depth and rng.random() < 0.3 else [],
+                 rng.choice([None, None, None, 'nan', 'inf'])] for _ in range(rng.choice([0, 0, 1, 1, 2]))]
     for i in range(rng.randint(3, 8)):
         kind = rng.choice(['plain', 'plain', 'plain', 'wrap'] + ([] if clock == 'app' else ['rout']))
         obj = rng.randrange(2)
@@ -622,20 +623,22 @@ def gen_rt_batch(rng, clock, past=False, inside=False):
             slot[obj] = k
         else:
             k = rng.randint(0, 6)
-        items.append(['%s%d.%d' % (kind[0], obj, i), kind, obj, k, nested(1) if kind == 'plain' else []])
+        items.append(['%s%d.%d' % (kind[0], obj, i), kind, obj, k, nested(1) if kind == 'plain' else [],
+                      rng.choice([None, None, 'nan', 'nan', 'inf']) if kind == 'plain' else None])
     return {'clock': clock, 'tempo': rng.choice(['1', '2']), 'past': past, 'inside': inside, 'items': items, 'expect': 0}
 
 
 def rt_labels(b):
     """labels that must wake: one per queue item (the same object again = one item), plus everything scheduled on the way"""
     last = {}
-    for n, (lab, kind, obj, k, nested) in enumerate(b['items']):
+    for n, it in enumerate(b['items']):
+        lab, kind, obj, k, nested = it[:5]
         last[('p', n) if kind == 'plain' else (kind, obj)] = (lab, nested)
     out = []
 
     def walk(nested):
-        for lab, d, sub in nested:
-            out.append(lab); walk(sub)
+        for sp in nested:
+            out.append(sp[0]); walk(sp[2])
     for lab, nested in last.values():
         out.append(lab); walk(nested)
     return out
@@ -654,7 +657,8 @@ def rt_expected(b, r):
     if len(top) != len(b['items']):
         return None
     q, label = oracle.SortedListQueue(), {}
-    for n, ((lab, kind, obj, k, nested), (_, t, _)) in enumerate(zip(b['items'], top)):
+    for n, (it, (_, t, _)) in enumerate(zip(b['items'], top)):
+        lab, kind, obj, k = it[:4]
         key = ('p', n) if kind == 'plain' else (kind, obj)
         label[key] = lab
         q.add(Fraction(float(t)), key)                       # the same object again = re-add
@@ -674,12 +678,16 @@ def check_rt(ctx, c, n):
     fixed = [[['tick1', 'plain', 0, 1, []], ['other', 'plain', 1, 2, []], ['tick2', 'plain', 0, 3, []]],
              # A due first schedules C before B, D with B and E after B, all while B is already due
              [['A', 'plain', 0, 1, [['C', 1, []], ['D', 2, []], ['E', 3, []]]], ['B', 'plain', 1, 3, []]],
-             [['a', 'plain', 0, 0, []], ['b', 'plain', 1, 0, []], ['c', 'plain', 2, 0, []]]]
+             [['a', 'plain', 0, 0, []], ['b', 'plain', 1, 0, []], ['c', 'plain', 2, 0, []]],
+             # tasks answering nan / inf (never rescheduled) among others that are pending
+             [['t%d' % i, 'plain', i, k, [], ('nan' if i in (1, 4) else 'inf' if i == 2 else None)] for i, k in enumerate([5, 1, 4, 2, 0, 6, 3])]]
     bs = []
     for clock in ('system', 'tempo', 'app'):
         for it in fixed:
             bs.append({'clock': clock, 'tempo': '2', 'past': True, 'inside': False, 'items': it})
     bs.append({'clock': 'app', 'past': False, 'inside': True, 'items': fixed[2]})
+    for clock in ('system', 'tempo'):
+        bs.append({'clock': clock, 'tempo': '1', 'past': False, 'inside': False, 'items': fixed[3]})
     for i in range(n):
         for clock in ('system', 'tempo', 'app'):
             bs.append(gen_rt_batch(rng, clock, past=rng.random() < 0.7, inside=(clock == 'app' and rng.random() < 0.4)))
@@ -695,6 +703,7 @@ def check_rt(ctx, c, n):
         c.count('user:rt-' + b['clock'] + ('-inside' if b.get('inside') else '') + ('-one-cycle' if b.get('past') else ''))
         c.evaluations += 1
         if any(it[4] for it in b['items']): c.count('user:rt-schedules-while-waking')
+        if 'nan' in json.dumps(b['items']) or 'inf' in json.dumps(b['items']): c.count('user:rt-answers-inf-or-nan')
         exp = rt_expected(b, r) if 'error' not in r else None
         log = r.get('log')
         if exp is not None and log == exp and sorted(exp) == sorted(rt_labels(b)):
